@@ -85,7 +85,9 @@ type World struct {
 	db        ethdb.Database
 	imported  int // number of generated blocks imported into chain
 
-	refs map[common.Hash]*RefState // by state root
+	refs     map[common.Hash]*RefState // by state root
+	keepRefs bool                      // build the reference of every imported block at import time (before it can go stale)
+	refsUpTo int
 }
 
 func amsterdamConfig() *params.ChainConfig {
@@ -321,6 +323,22 @@ func (w *World) Import(n int) {
 	if n > len(w.blocks) {
 		n = len(w.blocks)
 	}
+	if !w.keepRefs {
+		w.importRaw(n)
+		return
+	}
+	// keep the reference of every state: import in steps small enough that no
+	// state is flattened away before it was read
+	for w.imported < n {
+		w.importRaw(min(n, w.imported+64))
+		w.buildRefs()
+	}
+}
+
+func (w *World) importRaw(n int) {
+	if n > len(w.blocks) {
+		n = len(w.blocks)
+	}
 	if n <= w.imported {
 		return
 	}
@@ -328,6 +346,28 @@ func (w *World) Import(n int) {
 		simcore.Harnessf("node A failed to import its own chain: %v", err)
 	}
 	w.imported = n
+}
+
+func (w *World) buildRefs() {
+	for ; w.refsUpTo <= w.imported; w.refsUpTo++ {
+		w.Ref(w.Header(w.refsUpTo).Root)
+	}
+}
+
+// RefAt returns the reference state of block n (n <= imported).
+func (w *World) RefAt(n int) *RefState { return w.Ref(w.Header(n).Root) }
+
+// RefByRoot returns the reference state for a root of the imported chain, nil if unknown.
+func (w *World) RefByRoot(root common.Hash) *RefState {
+	if r, ok := w.refs[root]; ok {
+		return r
+	}
+	for i := w.imported; i >= 0; i-- {
+		if w.Header(i).Root == root {
+			return w.Ref(root)
+		}
+	}
+	return nil
 }
 
 // Header returns the header of block number n of the generated chain.
@@ -345,6 +385,7 @@ func (w *World) Stop() { w.chain.Stop() }
 type KV struct{ K, V []byte }
 
 type RefAccount struct {
+	stoIdx  *nodeIndex
 	Hash    common.Hash
 	Full    []byte // consensus RLP
 	Slim    []byte // snapshot RLP
@@ -355,6 +396,7 @@ type RefAccount struct {
 // RefState is the content of one state root, extracted from Node A and
 // cross-checked with the independent refmpt root computation.
 type RefState struct {
+	accIdx   *nodeIndex
 	Root     common.Hash
 	Accounts []*RefAccount // sorted by hash
 	byHash   map[common.Hash]*RefAccount
